@@ -91,7 +91,7 @@ func funcLitToLambdaExpr(v *ast.FuncLit, ret *ast.Expr) {
 		}
 	}
 	if len(v.Body.List) == 1 {
-		if stmt, ok := v.Body.List[0].(*ast.ReturnStmt); ok && len(stmt.Results) == nres {
+		if stmt, ok := v.Body.List[0].(*ast.ReturnStmt); ok && len(stmt.Results) == nres && nres > 0 {
 			*ret = &ast.LambdaExpr{First: v.Pos(), Last: v.Pos(), Lhs: lsh, Rhs: stmt.Results, LhsHasParen: len(lsh) > 1, RhsHasParen: len(stmt.Results) > 1}
 			return
 		}
